@@ -1,6 +1,7 @@
 import PolyVerif.Lemmas.Ligate
 import PolyVerif.Lemmas.LigateSys
 import PolyVerif.Gen.CloneFacts
+import PolyVerif.Lemmas.RingsWalk
 /-
 C09 — GoldenGate returns exactly the plasmids the overhangs allow.
 
@@ -23,10 +24,16 @@ concatemers of alternatives); the code does not return them and on designed pool
 
 The goroutine system `Sys`/`Step` (Model/Ligate.lean) is transcribed BY HAND from clone.go lines 264-343
 (`recurseLigate`, `getConstructs`, `CircularLigate`); `ligate_schedule` / `ligate_terminates` are theorems
-about all runs of THAT system.  Nothing extracts the structure from the source: moving `wg.Add` into the
-child, buffering the channel or changing the collector would leave them green — only the
-GOMAXPROCS / `-race` runs of the correspondence check observe the real runtime.  `GoldenGate(parts, enzyme)` is `CircularLigate` on the concatenated cuts
-(`goldenGate_eq`), so every theorem applies to it with `pool := goldenGatePool cut parts`.
+about all runs of THAT system.  It is tied to the source by `clone_structure_pinned`: harness/cmd/extract-clone
+re-reads clone.go on every run and the theorem compares the synchronisation vocabulary of the functions under
+`CircularLigate` and four order facts (`Add` immediately before each worker `go`, `defer Done` first in the worker,
+`close` after the wait, collector started before the wait) with what the Step rules assume — so moving `wg.Add` into
+the child, closing before waiting, not deferring `Done`, starting the collector late, or bringing in a mutex / semaphore
+/ `select` breaks an obligation.  NOT pinned (and seen only by the GOMAXPROCS / `-race` runs): the layout inside that
+frame — how many goroutines, buffered or unbuffered construct channel, data races.
+
+`GoldenGate(parts, enzyme)` is `CircularLigate` on the concatenated cuts (`goldenGate_eq`), so every theorem applies to
+it with `pool := goldenGatePool cut parts`.
 
 The key of the collector is modelled as the canonical form that `seqhash.Hash` digests
 (`key_hashSpec`); equal canonical forms ⇔ same molecule is PROVED here (`key_eq_iff`, over the
@@ -339,9 +346,14 @@ theorem ligate_schedule_perm (pool : List Fragment) {arr : List Str} (harr : arr
 from `clone.CircularLigate`, re-extracted from the source by harness/cmd/extract-clone on every run, is the one the Step
 system is written in (`expectedCloneFacts`, Model/Ligate.lean).  A change that brings in another mechanism (mutex,
 semaphore channel, `select`, `sync.Map`, a second collector, no channel at all) breaks this obligation even if every result
-stays the same; a restructuring inside the vocabulary (helpers, `range`, a buffered channel, one goroutine per seed) does not. -/
+stays the same, and so does a change of the ORDER the Step rules rest on (`Add` not immediately before the `go`, `Done` not
+deferred first, `close` before the wait, collector started after the wait); a restructuring inside vocabulary and order
+(helpers, `range`, a buffered channel, one goroutine per seed) does not. -/
 theorem clone_structure_pinned :
-    (Gen.clonePrimitives, Gen.cloneSyncCalls, Gen.cloneStringChanCollectors, Gen.cloneStringChanSenders) = expectedCloneFacts := by
+    (Gen.clonePrimitives, Gen.cloneSyncCalls, Gen.cloneStringChanCollectors, Gen.cloneStringChanSenders,
+      Gen.cloneAddBeforeGo, Gen.cloneDeferDoneFirst, Gen.cloneCloseAfterWait, Gen.cloneCollectorBeforeWait) = expectedCloneFacts := by
+  unfold expectedCloneFacts
+  simp only [Prod.mk.injEq]
   decide
 
 /-- no fuel-exhausted call in any spawn tree: the model recursion is the Go recursion -/
@@ -396,6 +408,28 @@ example : let a : Fragment := ⟨"AC".toList, "AATG".toList, "GCTT".toList⟩
     let c : Fragment := ⟨"TT".toList, "CCGA".toList, "GCTT".toList⟩
     emitted [a, b, c] = ["GCTTGGCCGATT".toList, "CCGATTGCTTGG".toList] ∧
     (circularLigateDFS [a, b, c]).length = 1 := by decide
+
+/-! ### the judge's ring enumerators are correct with respect to the spec's definition of a ring -/
+
+/-- what `Driver/C09.lean` enumerates with `ringsWalk` is sound: every list returned is a `Ring` of the pool -/
+theorem judge_rings_sound (b : Bool) (pool : List Fragment) : ∀ os ∈ ringsWalk b pool, Ring pool os :=
+  ringsWalk_sound b pool
+
+/-- … and complete: the unpruned walk returns exactly the rings of the pool (every ring, at every starting fragment, on
+both strands), for pools of every size -/
+theorem judge_rings_exact (pool : List Fragment) (os : List Oriented) : os ∈ ringsWalk false pool ↔ Ring pool os :=
+  mem_ringsWalk_iff pool os
+
+/-- the set a designed pool's result is compared with — the pruned walk filtered by `Simple` — is exactly the set of simple
+rings of the pool (`ligate_designed` speaks about precisely these) -/
+theorem judge_simple_rings_exact (pool : List Fragment) (os : List Oriented) :
+    os ∈ (ringsWalk true pool).filter (fun os => decide (Simple os)) ↔ Ring pool os ∧ Simple os :=
+  mem_simpleRingsWalk_iff pool os
+
+/-- the upper bound used on pools that are not designed — the one-lap walk — is exactly the class of `ligate_exact` -/
+theorem judge_oneLap_exact (pool : List Fragment) (os : List Oriented) :
+    os ∈ ringsOneLap pool ↔ ∃ f suf, os = ⟨f, false⟩ :: suf ∧ Ring pool os ∧ OneLap f suf :=
+  mem_ringsOneLap_iff pool os
 
 /-! ### GoldenGate -/
 
